@@ -223,7 +223,7 @@ def check_c05(ctx):
     layouts = fe.ALL_LAYOUTS if ctx.tier == 'thorough' else sorted(set([fe.ALL_LAYOUTS[(ctx.seed + i) % len(fe.ALL_LAYOUTS)] for i in (0, 4)] + ["remoteq"]))
     gensets = [fe.G_N3_ALL_WF] + ([fe.G_N4_S_WF, fe.G_N3_D3_WF] if ctx.tier == 'thorough' else [])
     # the root on a remote site, other documents on that site, on another one and in local files
-    runs = [(gs, layouts, '') for gs in gensets] + [(fe.G_N3_ALL_WF, ['localfile'] + (['remote', 'sibling', 'subdir', 'parent'] if ctx.tier == 'thorough' else [['remote', 'sibling', 'subdir'][ctx.seed % 3]]), 'http')]
+    runs = [(gs, layouts if gs == fe.G_N3_ALL_WF or ctx.tier != 'thorough' else layouts[:3] + ['remoteq'], '') for gs in gensets] + [(fe.G_N3_ALL_WF, ['localfile'] + (['remote', 'sibling', 'subdir', 'parent'] if ctx.tier == 'thorough' else [['remote', 'sibling', 'subdir'][ctx.seed % 3]]), 'http')]
     for gi, (gs, lays, site) in enumerate(runs):
         lay = lays if gs[1] == 2 else [a + '+subdir' for a in lays]
         obsfiles = vlib.run_worker(ctx, 'resolve', fe.gen(ctx, *gs),
@@ -246,6 +246,12 @@ def check_c05(ctx):
                                  o['mode'], o['api'], o['kind'], o['refs'], o['outcome'], o['err'][:60], o['resjson'][:80], o['concrete'][:2]))
             if len(rep.samples) < 5 and v['c05val'] == 'pass' and len(o['docurls']) > 1 and o['mode'] == 'location':
                 rep.samples.append({'ref': o['refs'], 'mode': o['mode'], 'api': o['api'], 'result': o['resjson'], 'documents': o['concrete']})
+        # millions of observations: the files of a run are dropped as soon as it is judged
+        if not os.environ.get('VERIF_KEEP'):
+            for f in obsfiles:
+                for g in (f, f + '.slim', f.replace('_obs.', '_ver.')):
+                    if os.path.exists(g):
+                        os.remove(g)
     return rep.finish(
         'model_checking',
         '(a) PtrCases.tla: every member name of length <= %d over {x / ~ 0 1 %% # ? space {}; TLC checks that RFC 6901 decoding '
